@@ -33,7 +33,9 @@ package cdata
 //@   requires step == nil || len(step) >= len(nd.OffsetStep)
 //@   requires forall(k, 0, len(nd.OffsetStep), nd.OffsetStep[k] == nd.Offset[k]*nd.Step[k])
 //@   fresh r
+//@   dyntype r nd{t}C
 //@   assigns nothing
+//@   ensures [C03.slice-fresh-strides] fresh(as(r, nd{t}C).OffsetStep)
 //@   ensures [C03.slice-shares] as(r, nd{t}C).Impl == nd.Impl
 //@   ensures [C03.slice-start] as(r, nd{t}C).Start == nd.Start + idot(loc, nd.OffsetStep, len(loc))
 //@   ensures [C03.slice-stride] len(as(r, nd{t}C).OffsetStep) == len(nd.OffsetStep) && forall(k, 0, len(nd.OffsetStep), as(r, nd{t}C).OffsetStep[k] == nd.OffsetStep[k] * ite(step == nil, 1, step[k]))
@@ -132,3 +134,46 @@ package cdata
 //@   loop 0 invariant implies(rangeindex + 1 < len(vals), 0 <= runaddr(old(nd.Start + idot(loc, nd.OffsetStep, len(loc))), rangeindex + 1, step, nd.OffsetStep[dim]) && runaddr(old(nd.Start + idot(loc, nd.OffsetStep, len(loc))), rangeindex + 1, step, nd.OffsetStep[dim]) < nd.Impl.buflen)
 //@   loop 0 invariant forall(j, 0, rangeindex + 1, nd.Impl[runaddr(old(nd.Start + idot(loc, nd.OffsetStep, len(loc))), j, step, nd.OffsetStep[dim])] == vals[j])
 //@   loop 0 invariant forall(p, 0, nd.Impl.buflen, implies(!exists(j, 0, rangeindex + 1, p == runaddr(old(nd.Start + idot(loc, nd.OffsetStep, len(loc))), j, step, nd.OffsetStep[dim])), nd.Impl[p] == old(nd.Impl[p])))
+
+// ---- ApplySlice / CopyFrom of the C back-end (BOUNDED: rank <= 3, extents symbolic) ----
+
+//@ func (*nd{t}C).ApplySlice(nd, loc, step, vals)
+//@   ndmodel rowmajor
+//@   simplify entry-ids
+//@   bounded rank <= 3 (the mixed-radix successor lemma is proved for ranks 1, 2 and 3; extents, strides and steps are symbolic)
+//@   instantiate C02.lemma-iprod-is-pfrom0(vals.shape, vals.rank, 0)
+//@   callsite Set instantiate C02.lemma-idot-rm(arg1, vals.shape, arg0.OffsetStep, pos, vals.rank, vals.rank)
+//@   callsite Set instantiate C01.lemma-sladdr-rmaddr(vals.shape, nd.OffsetStep, step, ite(step == nil, 1, 0), arg0.OffsetStep, pos, vals.rank, vals.rank)
+//@   loop 0 instantiate C02.lemma-successor-1(pre(seq(idx)), idx, vals.shape, pos, 0)
+//@   loop 0 instantiate C02.lemma-successor-2(pre(seq(idx)), idx, vals.shape, pos, 0)
+//@   loop 0 instantiate C02.lemma-successor-3(pre(seq(idx)), idx, vals.shape, pos, 0)
+//@   requires vals != nil && 1 <= vals.rank && vals.rank <= 3 && forall(k, 0, vals.rank, vals.shape[k] >= 1)
+//@   requires len(nd.OffsetStep) == vals.rank && len(nd.Offset) == vals.rank && len(nd.Step) == vals.rank && len(loc) == vals.rank && (step == nil || len(step) >= vals.rank)
+//@   requires forall(k, 0, len(nd.OffsetStep), nd.OffsetStep[k] == nd.Offset[k]*nd.Step[k])
+//@   requires nd.Impl.id != loc.id && nd.Impl.id != nd.OffsetStep.id && nd.Impl.id != nd.Offset.id && nd.Impl.id != nd.Step.id && nd.Impl.id != nd.Dims.id && nd.Impl.id != nd.OriginalDims.id && (step == nil || nd.Impl.id != step.id)
+//@   requires forall(j, 0, iprod(vals.shape, vals.rank), 0 <= nd.Start + idot(loc, nd.OffsetStep, len(loc)) + sladdr(vals.shape, nd.OffsetStep, step, ite(step == nil, 1, 0), j, vals.rank, vals.rank) && nd.Start + idot(loc, nd.OffsetStep, len(loc)) + sladdr(vals.shape, nd.OffsetStep, step, ite(step == nil, 1, 0), j, vals.rank, vals.rank) < nd.Impl.buflen)
+//@   requires forall(j1, 0, iprod(vals.shape, vals.rank), forall(j2, 0, iprod(vals.shape, vals.rank), implies(j1 != j2, nd.Start + idot(loc, nd.OffsetStep, len(loc)) + sladdr(vals.shape, nd.OffsetStep, step, ite(step == nil, 1, 0), j1, vals.rank, vals.rank) != nd.Start + idot(loc, nd.OffsetStep, len(loc)) + sladdr(vals.shape, nd.OffsetStep, step, ite(step == nil, 1, 0), j2, vals.rank, vals.rank))))
+//@   assigns nd.Impl[*]
+//@   ensures [C03.applyslice-footprint,C01.applyslice-footprint] forall(j, 0, iprod(vals.shape, vals.rank), nd.Impl[old(nd.Start + idot(loc, nd.OffsetStep, len(loc))) + sladdr(vals.shape, nd.OffsetStep, step, ite(step == nil, 1, 0), j, vals.rank, vals.rank)] == vals.at(j))
+//@   loop 0 prestep [C03.applyslice-step-value] nd.Impl[old(nd.Start + idot(loc, nd.OffsetStep, len(loc))) + sladdr(vals.shape, nd.OffsetStep, step, ite(step == nil, 1, 0), pre(pos), vals.rank, vals.rank)] == vals.at(pre(pos))
+//@   loop 0 prestep [C03.applyslice-step-frame] forall(p, 0, nd.Impl.buflen, implies(p != old(nd.Start + idot(loc, nd.OffsetStep, len(loc))) + sladdr(vals.shape, nd.OffsetStep, step, ite(step == nil, 1, 0), pre(pos), vals.rank, vals.rank), nd.Impl[p] == pre(nd.Impl[p])))
+//@   loop 0 invariant 0 <= pos && pos <= size && size == iprod(vals.shape, vals.rank) && len(idx) == vals.rank && len(shape) == vals.rank
+//@   loop 0 invariant forall(k, 0, vals.rank, shape[k] == vals.shape[k] && idx[k] == rmc(vals.shape, pos, vals.rank, k))
+//@   loop 0 invariant as(slice, nd{t}C).Start == old(nd.Start + idot(loc, nd.OffsetStep, len(loc))) && len(as(slice, nd{t}C).OffsetStep) == vals.rank && as(slice, nd{t}C).Impl == nd.Impl
+//@   loop 0 invariant forall(k, 0, vals.rank, as(slice, nd{t}C).OffsetStep[k] == sstride(nd.OffsetStep, step, ite(step == nil, 1, 0), k))
+//@   loop 0 invariant forall(j, 0, pos, nd.Impl[old(nd.Start + idot(loc, nd.OffsetStep, len(loc))) + sladdr(vals.shape, nd.OffsetStep, step, ite(step == nil, 1, 0), j, vals.rank, vals.rank)] == vals.at(j))
+//@   loop 0 invariant implies(pos < size, 0 <= old(nd.Start + idot(loc, nd.OffsetStep, len(loc))) + sladdr(vals.shape, nd.OffsetStep, step, ite(step == nil, 1, 0), pos, vals.rank, vals.rank) && old(nd.Start + idot(loc, nd.OffsetStep, len(loc))) + sladdr(vals.shape, nd.OffsetStep, step, ite(step == nil, 1, 0), pos, vals.rank, vals.rank) < nd.Impl.buflen)
+
+//@ func (*nd{t}C).CopyFrom(nd, other)
+//@   ndmodel rowmajor
+//@   simplify entry-ids
+//@   bounded rank <= 3 (through ApplySlice)
+//@   callsite ApplySlice instantiate C01.lemma-idot-zero(arg1, nd.OffsetStep, len(arg1))
+//@   requires other != nil && 1 <= other.rank && other.rank <= 3 && forall(k, 0, other.rank, other.shape[k] >= 1)
+//@   requires len(nd.Dims) == other.rank && len(nd.OffsetStep) == other.rank && len(nd.Offset) == other.rank && len(nd.Step) == other.rank
+//@   requires forall(k, 0, len(nd.OffsetStep), nd.OffsetStep[k] == nd.Offset[k]*nd.Step[k])
+//@   requires nd.Impl.id != nd.OffsetStep.id && nd.Impl.id != nd.Offset.id && nd.Impl.id != nd.Step.id && nd.Impl.id != nd.Dims.id && nd.Impl.id != nd.OriginalDims.id
+//@   requires forall(j, 0, iprod(other.shape, other.rank), 0 <= nd.Start + sladdr(other.shape, nd.OffsetStep, nilints, 1, j, other.rank, other.rank) && nd.Start + sladdr(other.shape, nd.OffsetStep, nilints, 1, j, other.rank, other.rank) < nd.Impl.buflen)
+//@   requires forall(j1, 0, iprod(other.shape, other.rank), forall(j2, 0, iprod(other.shape, other.rank), implies(j1 != j2, nd.Start + sladdr(other.shape, nd.OffsetStep, nilints, 1, j1, other.rank, other.rank) != nd.Start + sladdr(other.shape, nd.OffsetStep, nilints, 1, j2, other.rank, other.rank))))
+//@   assigns nd.Impl[*]
+//@   ensures [C03.copyfrom-footprint,C01.copyfrom-footprint] forall(j, 0, iprod(other.shape, other.rank), nd.Impl[old(nd.Start) + sladdr(other.shape, nd.OffsetStep, nilints, 1, j, other.rank, other.rank)] == other.at(j))
